@@ -119,6 +119,14 @@ func NewParameters(logn int, q, p []uint64, xs, xe DistributionLiteral, ringType
 		return Parameters{}, fmt.Errorf("cannot NewParameters: %w", err)
 	}
 
+	if err = checkDistribution(xs); err != nil {
+		return Parameters{}, fmt.Errorf("invalid secret distribution: %w", err)
+	}
+
+	if err = checkDistribution(xe); err != nil {
+		return Parameters{}, fmt.Errorf("invalid error distribution: %w", err)
+	}
+
 	switch xs := xs.(type) {
 	case ring.Ternary, ring.DiscreteGaussian:
 		params.xs = NewDistribution(xs.(ring.DistributionParameters), logn)
@@ -795,6 +803,24 @@ func (p Parameters) UnpackLevelParams(args []int) (levelQ, levelP int) {
 	default:
 		return args[0], args[1]
 	}
+}
+
+// checkDistribution refuses distribution parameters outside of the domain of the samplers (which would otherwise
+// panic, recurse without bound or silently sample something else at key-generation or encryption time).
+func checkDistribution(d DistributionLiteral) error {
+	switch d := d.(type) {
+	case ring.Ternary:
+		if d.H != 0 && d.P != 0 {
+			return fmt.Errorf("ring.Ternary: only one of H=%d and P=%f may be set", d.H, d.P)
+		}
+		if d.H < 0 {
+			return fmt.Errorf("ring.Ternary: H=%d is negative", d.H)
+		}
+		if d.H == 0 && d.P != 0 && !(d.P > 0 && d.P < 1) {
+			return fmt.Errorf("ring.Ternary: P=%f is not in ]0, 1[", d.P)
+		}
+	}
+	return nil
 }
 
 func checkSizeParams(logN int) error {
